@@ -102,8 +102,8 @@ def gen_dumps_opts(rng, raising_bias=0.2):
 class C14:
     PROPERTY = 'C14'
     TIERS = {
-        'quick': {'runs': 2600, 'wall_cap_s': 300, 'chunk': 26},
-        'thorough': {'runs': 66000, 'wall_cap_s': 1500, 'chunk': 33},
+        'quick': {'runs': 2600, 'wall_cap_s': 300, 'chunk': 26, 'opt_leg_runs': 150},
+        'thorough': {'runs': 66000, 'wall_cap_s': 1500, 'chunk': 33, 'opt_leg_runs': 600},
     }
     RULE = ('a live document (docgen, <=25 rows, 30% with 1-2 damaged **kern cells so error tokens are present) and a seeded history of 3..12 '
             'read-only operations: dumps with arbitrary options (six encodings x spine_types x spine_ids x include/exclude as set/list/tuple/single '
